@@ -377,3 +377,21 @@ Example C02_hypotheses_satisfiable :
   dot3 (mkV3 (2#3) (1#3) (2#3)) (mkV3 (2#3) (1#3) (2#3)) == 1 /\
   ~ Vector3D__rotate sq qc qs (mkV3 1 0 0) axis 0 =3= mkV3 1 0 0.
 Proof. vm_compute. repeat split; try discriminate; intros [H _]; discriminate. Qed.
+
+(* ---- measures of the solids under the generated `scale` (k >= 0): areas by k^2, volumes by k^3; the root is only assumed to respect
+   equality and to be homogeneous, sqrt(k^2 m) = k sqrt(m) ---- *)
+From LBG Require Import G12_mesh C01_solids.
+Theorem C02_solid_measures_scale : forall (qsqrt qtan : Q -> Q) (qpi : Q),
+  (forall a b, a == b -> qsqrt a == qsqrt b) -> (forall k m, 0 <= k -> qsqrt (k * k * m) == k * qsqrt m) ->
+  forall k o, 0 <= k ->
+  (forall s, Sphere_area qpi (Sphere_scale s k o) == k * k * Sphere_area qpi s /\
+             Sphere_volume qpi (Sphere_scale s k o) == k * k * k * Sphere_volume qpi s) /\
+  (forall c, Cylinder_volume qsqrt qpi (Cylinder_scale c k o) == k * k * k * Cylinder_volume qsqrt qpi c /\
+             Cylinder_area qsqrt qpi (Cylinder_scale c k o) == k * k * Cylinder_area qsqrt qpi c) /\
+  (forall c, Cone_radius qsqrt qtan (Cone_scale c k o) == k * Cone_radius qsqrt qtan c /\
+             Cone_volume qsqrt qtan qpi (Cone_scale c k o) == k * k * k * Cone_volume qsqrt qtan qpi c).
+Proof.
+  intros qsqrt qtan qpi P H k o Hk. split; [intros s; apply sphere_scale_law|].
+  split; [intros c; apply cylinder_scale_law; assumption | intros c; apply cone_scale_law; assumption].
+Qed.
+Print Assumptions C02_solid_measures_scale.
